@@ -46,3 +46,66 @@ Proof.
   { induction l as [|x l IH]; [reflexivity|]. cbn [flat_map]. rewrite IH. f_equal. exact (tie_since_token x). }
   rewrite E. destruct (flat_map _ _); reflexivity.
 Qed.
+
+(* output_algorithm(): the assembly of the notes of a name the database knows, as it reads now (T1c translation: the enumerate loop over the three levels unrolled,
+   the loop over the optional notes of a component as "the present entries", the "available since" text from get_since_text - itself tied above).  The model's
+   texts of a known entry are the source's, level by level. *)
+Definition known_texts (e : desc) : list (level * string) :=
+  let t := map (fun s => (LFail, s)) (fails e) ++ map (fun s => (LWarn, s)) (warns e)
+           ++ (match since_text (versions e) with Some s => if String.eqb s "" then [] else [(LInfo, s)] | None => [] end)
+           ++ map (fun s => (LInfo, s)) (infos e) in
+  match t with [] => [(LInfo, "")] | _ => t end.
+Definition level_of_text (s : string) : level := if String.eqb s "fail" then LFail else if String.eqb s "warn" then LWarn else LInfo.
+
+Lemma somes_pairs (lv : string) l :
+  flat_map (fun o_ : option string => match o_ with Some c_t => [(lv, c_t)] | None => [] end) l = map (fun s => (lv, s)) (somes l).
+Proof.
+  unfold somes. induction l as [|[x|] l IH]; cbn [flat_map map app]; [reflexivity| |exact IH]. rewrite IH. reflexivity.
+Qed.
+Lemma comp_guard (e : desc) (i : nat) (F : list (option string) -> list (string * string)) (acc : list (string * string)) :
+  F [] = [] ->
+  (if (Z.of_nat (List.length e) >? Z.of_nat i)%Z then (acc ++ F (nth i e []))%list else acc) = (acc ++ F (nth i e []))%list.
+Proof.
+  intros HF. destruct (Z.of_nat (List.length e) >? Z.of_nat i)%Z eqn:E; [reflexivity|].
+  rewrite Z.gtb_ltb in E. apply Z.ltb_ge in E. rewrite nth_overflow by lia. rewrite HF, app_nil_r. reflexivity.
+Qed.
+Lemma tie_alg_texts_known : forall e,
+  map (fun p => (level_text (fst p), snd p)) (known_texts e) = src_alg_texts_known e (since_text (versions e)).
+Proof.
+  intros e. unfold src_alg_texts_known. cbv zeta.
+  change (String.eqb "fail" "info") with false. change (String.eqb "warn" "info") with false. change (String.eqb "info" "info") with true. cbv iota.
+  change (0 + 1)%Z with (Z.of_nat 1). change (1 + 1)%Z with (Z.of_nat 2). change (2 + 1)%Z with (Z.of_nat 3). rewrite !Nat2Z.id.
+  rewrite (comp_guard e 1 (fun l => flat_map (fun o_ => match o_ with Some c_t => [("fail", c_t)] | None => [] end) l) []) by reflexivity.
+  cbn [app].
+  rewrite (comp_guard e 2 (fun l => flat_map (fun o_ => match o_ with Some c_t => [("warn", c_t)] | None => [] end) l)) by reflexivity.
+  rewrite !somes_pairs.
+  unfold known_texts, fails, warns, infos, comp.
+  set (F := somes (nth 1 e [])). set (W := somes (nth 2 e [])). set (I := somes (nth 3 e [])).
+  (* the "available since" part *)
+  assert (HS: forall acc : list (string * string),
+    (if negb (match since_text (versions e) with Some _ => false | None => true end)
+        && (Z.of_nat (String.length (match since_text (versions e) with Some s_ => s_ | None => EmptyString end)) >? 0)%Z
+     then (acc ++ [("info", match since_text (versions e) with Some s_ => s_ | None => EmptyString end)])%list else acc)
+    = (acc ++ map (fun p => (level_text (fst p), snd p)) (match since_text (versions e) with Some s => if String.eqb s "" then [] else [(LInfo, s)] | None => [] end))%list).
+  { intros acc. destruct (since_text (versions e)) as [s|]; cbn [negb andb]; [|rewrite app_nil_r; reflexivity].
+    destruct s as [|a r]; cbn [String.eqb String.length map]; [rewrite app_nil_r; reflexivity|].
+    assert (H: (Z.of_nat (S (String.length r)) >? 0)%Z = true) by (rewrite Z.gtb_ltb; apply Z.ltb_lt; lia). rewrite H. reflexivity. }
+  rewrite HS.
+  set (SI := match since_text (versions e) with Some s => if String.eqb s "" then [] else [(LInfo, s)] | None => [] end).
+  rewrite (comp_guard e 3 (fun l => map (fun s => ("info", s)) (somes l))) by reflexivity. fold I.
+  (* the final "no note at all" case *)
+  assert (M: forall (lv : level) l, map (fun p : level * string => (level_text (fst p), snd p)) (map (fun s => (lv, s)) l) = map (fun s => (level_text lv, s)) l).
+  { intros lv l. rewrite map_map. reflexivity. }
+  set (T := (map (fun s => (LFail, s)) F ++ map (fun s => (LWarn, s)) W ++ SI ++ map (fun s => (LInfo, s)) I)%list).
+  assert (ET: map (fun p : level * string => (level_text (fst p), snd p)) T
+              = (((map (fun s => ("fail", s)) F ++ map (fun s => ("warn", s)) W) ++ map (fun p : level * string => (level_text (fst p), snd p)) SI) ++ map (fun s => ("info", s)) I)%list).
+  { unfold T. rewrite !map_app, !M. cbn [level_text]. rewrite <- !app_assoc. reflexivity. }
+  rewrite <- ET.
+  destruct T as [|x T'] eqn:HT.
+  - cbn [map List.length Z.of_nat Z.eqb app]. reflexivity.
+  - cbn [map List.length]. assert (H: (Z.of_nat (S (List.length (map (fun p : level * string => (level_text (fst p), snd p)) T'))) =? 0)%Z = false) by (apply Z.eqb_neq; lia).
+    rewrite H. reflexivity.
+Qed.
+Lemma alg_texts_known_texts : forall d cat name e,
+  str_is_blank (lookup_name cat name) = false -> db_get d cat (lookup_name cat name) = Some e -> alg_texts d cat name = Some (known_texts e).
+Proof. intros d cat name e Hb Hg. unfold alg_texts. rewrite Hb, Hg. reflexivity. Qed.
